@@ -34,7 +34,7 @@ def retarget(ops, slot):
 
 
 def make_cases(tier, seed, files):
-    n = 400 if tier == 'quick' else 5000
+    n = 1200 if tier == 'quick' else 8000
     cases = []
     for i in range(n):
         r = gen.seeded(seed, 'C19', i)
